@@ -119,12 +119,29 @@ def run(tier):
         for sc in gens:
             objs += vlib.build_gen_objects([gens[sc] / f for f in ("zone_infos.cpp", "zone_policies.cpp", "zone_registry.cpp")], "sanrec",
                                            includes=[gens[sc]], outdir=out / ("obj-" + sc))
+        # the published constants of the fresh headers, by compiled value: {name, kZoneIdXxx, &kZoneXxx} per declared zone
+        parts = []
+        for scope, ns, nsk, tag in (("basic", "gendb", "basic", "Basic"), ("extended", "gendbx", "extended", "Ext")):
+            d = srcparse.parse_zone_infos_h(gens[scope] / "zone_infos.h")
+            id_by_name = {name: sym for sym, val, name in d["ids"]}
+            parts.append('#include "%s"' % (gens[scope] / "zone_infos.h"))
+            parts.append("struct GenSym%s { const char* name; uint32_t idconst; int hasId; const %s::ZoneInfo* zi; };" % (tag, nsk))
+            parts.append("static const GenSym%s kGenSyms%s[] = {" % (tag, tag))
+            for sym, name in d["zones"]:
+                idsym = id_by_name.get(name)
+                parts.append('  {"%s", %s, %d, &%s::%s},' % (name, ("%s::%s" % (ns, idsym)) if idsym else "0", 1 if idsym else 0, ns, sym))
+            parts.append("};\nstatic const int kNumGenSyms%s = %d;" % (tag, len(d["zones"])))
+            if not d["zones"]:
+                v.inconclusive_because("no kZone declarations recognised in the freshly generated %s zone_infos.h" % scope)
+        (out / "gen_symbols_fresh.inc").write_text("\n".join(parts) + "\n")
         defs = ["VERIF_GEN_REGISTRY_H=\"%s\"" % (gens["extended"] / "zone_registry.h"), "VERIF_GEN_REGISTRY_H2=\"%s\"" % (gens["basic"] / "zone_registry.h"),
-                "VERIF_EXT_NS=gendbx", "VERIF_BASIC_NS=gendb"]
+                "VERIF_EXT_NS=gendbx", "VERIF_BASIC_NS=gendb", "VERIF_GEN_SYMBOLS_INC=\"%s\"" % (out / "gen_symbols_fresh.inc")]
         gexe = build(VERIF / "native" / "registry.cpp", "sanrec", defines=defs, extra_objects=objs, name="registry_gen")
         rg = run_shards(gexe, [["--mode", "c11gen"]], san="rec", timeout=900)
         v.absorb(rg, "c11gen")
         c.update(rg.counters)
+        if not rg.counters.get("c11.generated_symbols"):
+            v.inconclusive_because("the constants of the freshly generated headers were never compared")
         for i in rg.infos:
             scope = i.get("gen")
             if scope and sorted(i["names"]) != sorted(comps[scope].tzdb["zones_map"]):
